@@ -699,6 +699,23 @@ func runC04(c *Ctx) {
 				c.Emit("c04.holds.pointcloud_index_buffer_witness", w.tok(f)+" "+plyMeshTok(m)+" "+rs, "true")
 			}
 		}
+		// CANDIDATE FINDING (shown to the coordinator): Color (float3, written as uchar red green blue) next to a user
+		// scalar named "alpha" (written as float): the binary reader claims red green blue alpha as ONE 4-vector and forces
+		// the W type on the group (reader_vector4.go:73) — Color comes back as a float4 of reinterpreted bytes, "alpha" is
+		// gone; ASCII is fine.  Same root cause as the C08 mixed-type-group finding, reached through the library's own writer.
+		{
+			m := modeling.NewMesh(modeling.PointTopology, []int{0, 1}).
+				SetFloat3Attribute(modeling.PositionAttribute, pos[:2]).
+				SetFloat3Attribute(modeling.ColorAttribute, []vector3.Float64{vector3.New(1., 0.5, 0.), vector3.New(0., 1., 0.25)}).
+				SetFloat1Attribute("alpha", []float64{0.5, 0.75})
+			for _, f := range []ply.Format{ply.BinaryLittleEndian, ply.BinaryBigEndian} {
+				data, err := w.write(m, f)
+				c.Emit("c04.write", w.tok(f)+" "+plyMeshTok(m), plyResBytes(data, err))
+				rs, _ := plyImplReadMesh(data)
+				c.Emit("c04.read", plyHx(data), rs)
+				c.Emit("c04.holds.alpha_next_to_color_witness", w.tok(f)+" "+plyMeshTok(m)+" "+rs, "true")
+			}
+		}
 		// fixed by 858df3c, kept as corpus cases: a property name that is not a single word, or used twice, makes Write
 		// fail before anything is written (no unreadable / silently corrupted file is produced)
 		bad := []modeling.Mesh{
